@@ -145,6 +145,10 @@ class HdlcModel:
         self.paths = [p for p in self.paths if p is not None]
         if self.__dict__.get("unresolved"):
             raise Undecided("the per-octet step of HdlcFrameReader.read calls code the step model cannot resolve: " + "; ".join(sorted(set(self.unresolved))[:3]))
+        try:
+            self.resolve_frame_predicates()
+        except Exception:  # noqa - the refinement is optional: without it complaints under unknown frame predicates stay undecided
+            pass
 
     # ------------------------------------------------------------------ roles
     def _const(self, name, expect):
@@ -442,7 +446,41 @@ class HdlcModel:
             return False  # invariant: frame length at entry <= maximum (established by the M1 guard after every append)
         if L.get("E") and L.get("S") is False:
             return False  # an empty frame has no header check sequence
+        if L.get("__infeasible__"):
+            return False  # its conditions on the current frame hold in no frame world
         return True
+
+    def resolve_frame_predicates(self):
+        """paths guarded by a condition the literal table does not know but which reads only the current frame: the condition is evaluated on the frame worlds
+        (frames built through the public API, every prefix, symbolic octets) together with the literal S = `header check sequence not yet available`.
+        Where the path's conditions fix S, the path gets that literal (the condition was another spelling of the too-short test, or implies it); where they
+        leave S open the path keeps its unknown conditions, marked `free` (they are independent of S: the row table treats them as free); where the worlds
+        cannot be evaluated nothing changes (complaints on such paths are undecided)."""
+        from sa.hdlcworlds import frame_predicate_values, sv_to_expr
+        frame0 = self.f0(self.roles.frame)
+        for sp in self.paths:
+            if not sp.unknown or sp.lits.get("H") is not False or "S" in sp.lits:
+                continue
+            exprs = []
+            for _, pol, g in sp.unknown:
+                e = sv_to_expr(strip_epoch(g), frame0)
+                if e is None:
+                    exprs = None
+                    break
+                exprs.append((e, pol))
+            if not exprs:
+                continue
+            vals = frame_predicate_values(self.M, exprs)
+            if vals is None:
+                continue
+            vals = set(vals)
+            if not vals:
+                sp.lits["__infeasible__"] = True
+            elif len(vals) == 1:
+                sp.lits["S"] = vals.pop()
+                sp.unknown = []
+            else:
+                self.__dict__.setdefault("free_paths", set()).add(id(sp))
 
     def matching(self, guard_alts):
         """paths consistent with any alternative (dict atom->bool) of the guard"""
